@@ -11,7 +11,7 @@ namespace cds_verif {
   using std::memory_order; using std::memory_order_relaxed; using std::memory_order_consume; using std::memory_order_acquire;
   using std::memory_order_release; using std::memory_order_acq_rel; using std::memory_order_seq_cst;
   template <typename T> inline uint64_t enc(T const& v) noexcept { uint64_t r=0; std::memcpy(&r,&v,sizeof(T)<8?sizeof(T):8); return r; }
-  inline void atomic_thread_fence(memory_order o) noexcept { vs::sched_point(nullptr,vs::K_FENCE,(int)o); std::atomic_thread_fence(o); }
+  inline void atomic_thread_fence(memory_order o) noexcept { std::atomic_thread_fence(o); }
   inline void atomic_signal_fence(memory_order o) noexcept { std::atomic_signal_fence(o); }
   template <typename T> class atomic {
     mutable std::atomic<T> a_;
